@@ -133,6 +133,11 @@ class ExprMixin:
         v = p.frame.lookup(name)
         if v is not None:
             return v
+        if name.startswith("g_"):
+            # ghost locals belong to the target, not to whichever helper is being inlined when a model consults them
+            for f in reversed(p.frames):
+                if name in f.locals:
+                    return f.locals[name]
         g = self.lookup_global(name, p.frame.mod, p)
         if g is not None:
             return g
